@@ -11,9 +11,9 @@
 
 use ckc_rs::cards::five::Five;
 
-pub static mut BASE: [u32; 7] = [0; 7];
+pub static mut BASE: [u32; 8] = [0; 8];
 pub static mut NBASE: usize = 0;
-pub static mut T: [u16; 128] = [0; 128];
+pub static mut T: [u16; 256] = [0; 256];
 /// strict: reaching the evaluator with anything but five distinct base cards is a failure
 pub static mut STRICT: bool = false;
 
@@ -54,15 +54,15 @@ pub fn mask_of(a: [u32; 5]) -> Option<usize> {
     let mut m = 0usize;
     let mut i = 0;
     while i < 5 {
-        let mut found = 8usize;
+        let mut found = 9usize;
         let mut j = 0;
         while j < unsafe { NBASE } {
-            if found == 8 && unsafe { BASE[j] } == a[i] {
+            if found == 9 && unsafe { BASE[j] } == a[i] {
                 found = j;
             }
             j += 1;
         }
-        if found == 8 || (m >> found) & 1 == 1 {
+        if found == 9 || (m >> found) & 1 == 1 {
             return None;
         }
         m |= 1 << found;
@@ -105,7 +105,7 @@ pub fn stub_five(this: &Five) -> (u16, Five) {
 /// not change a five-card value", which the c08_value_* harnesses establish on the real evaluator (and C01 through
 /// the suit-blind ordinal).
 pub static mut CURK: usize = 0;
-pub static mut BASEK: [[u32; 7]; 4] = [[0; 7]; 4];
+pub static mut BASEK: [[u32; 8]; 4] = [[0; 8]; 4];
 
 pub fn spec_shift(w: u32, k: u32) -> u32 {
     // S1: one shift moves suit s -> s+3 mod 4 (S->H->D->C->S)
@@ -142,15 +142,15 @@ pub fn stub_five_shift(this: &Five) -> (u16, Five) {
     let mut ok = true;
     let mut i = 0;
     while i < 5 {
-        let mut found = 8usize;
+        let mut found = 9usize;
         let mut j = 0;
         while j < unsafe { NBASE } {
-            if found == 8 && unsafe { BASEK[k][j] } == a[i] {
+            if found == 9 && unsafe { BASEK[k][j] } == a[i] {
                 found = j;
             }
             j += 1;
         }
-        if found == 8 || (m >> found) & 1 == 1 {
+        if found == 9 || (m >> found) & 1 == 1 {
             ok = false;
         } else {
             m |= 1 << found;
